@@ -7,7 +7,8 @@ renderer (pbt.wire).
 from hypothesis import strategies as st
 
 FIELD_MODES = ['zero', 'one', 'inc', 'dec', 'double', 'max7f', 'min80', 'ff',
-               'uniform', 'small', 'rest', 'rest+1', 'rest-1', 'big']
+               'uniform', 'small', 'rest', 'rest+1', 'rest-1', 'big', 'neg-small',
+               'neg-rest']
 
 
 def field_value(mode, true, width, arg, rest):
@@ -16,7 +17,10 @@ def field_value(mode, true, width, arg, rest):
          'double': 2 * true, 'max7f': top >> 1, 'min80': (top >> 1) + 1,
          'ff': top, 'uniform': arg, 'small': arg % 16, 'rest': rest,
          'rest+1': rest + 1, 'rest-1': rest - 1,
-         'big': 0x10000000 | (arg & 0xFFFF)}[mode]
+         'big': 0x10000000 | (arg & 0xFFFF),
+         # small negative numbers when the field is (wrongly) read signed
+         'neg-small': top - (arg % 64), 'neg-rest': top + 1 - max(1, rest) + (arg % 5) - 2,
+         }[mode]
     return v & top
 
 
